@@ -256,6 +256,40 @@ class Run:
                 itask.is_manual_submit = False
             return good
         schd.submit_task_jobs = submit
+        if (self.case.get('policy') or {}).get('live_submit'):
+            # additive (C03Q, off unless the policy sets live_submit): the prepared jobs go through the REAL
+            # TaskJobManager.submit_livelike_task_jobs (platform bookkeeping, task_jobs row, the reset of
+            # is_manual_submit at hand-over); nothing reaches the process pool because job preparation (stub
+            # above) has already cleared waiting_on_job_prep.  The stub no longer clears the manual-submit flag.
+            def submit_live(itasks, *a, **k):
+                itasks = list(itasks)
+                run.__dict__.setdefault('prepped', []).extend(
+                    [int(t.point), t.tdef.name, bool(t.state.is_held), bool(t.is_manual_submit)] for t in itasks)
+                real_psj = tjm.prep_submit_task_jobs
+                seen = {}
+
+                def psj(its, *aa, **kk):
+                    good, bad = real_psj(its, *aa, **kk)
+                    seen['good'] = list(good)
+                    for t in good:
+                        if not t.summary.get('job_runner_name'):
+                            t.summary['job_runner_name'] = 'background'
+                        run.launched.append([int(t.point), t.tdef.name, t.submit_num])
+                        run.__dict__.setdefault('launch_x', []).append(
+                            [int(t.point), t.tdef.name, t.submit_num, flows_of(t), bool(t.is_manual_submit)])
+                    return good, bad
+                tjm.prep_submit_task_jobs = psj
+                try:
+                    TaskJobManager.submit_livelike_task_jobs(tjm, itasks)
+                finally:
+                    tjm.__dict__.pop('prep_submit_task_jobs', None)
+                return seen.get('good', [])
+            schd.submit_task_jobs = submit_live
+        if (self.case.get('policy') or {}).get('vclock'):
+            # additive (C03Q, off unless the policy sets vclock): a virtual clock for the retry timers - the `time`
+            # read by TaskActionTimer (retry delay -> time-out) and by the wall_clock xtrigger (retry xtriggers) is
+            # the real time plus an offset that only the op 'tick' advances
+            self._install_vclock()
         # polls requested by the scheduler are recorded, not executed
         self.polls = []
         tjm.poll_task_jobs = lambda itasks, msg=None: run.polls.extend(
@@ -290,6 +324,49 @@ class Run:
                 run.nstmt_cur = getattr(run, 'nstmt_cur', 0) + 1
                 return orig_stmt(*a, **k)
             dao._execute_stmt = _execute_stmt
+
+    # -- additive (C03Q): virtual clock for retry timers, see start(); pending retry timers
+    def _install_vclock(self):
+        import time as _t
+        import cylc.flow.task_action_timer as _tat
+        import cylc.flow.xtriggers.wall_clock as _wc
+        run = self
+        self.clock_off = getattr(self, 'clock_off', 0.0)
+        if not hasattr(self, '_vclock_saved'):
+            self._vclock_saved = (_tat.time, _wc.time)
+
+        def vtime():
+            return _t.time() + run.clock_off
+        _tat.time = vtime
+        _wc.time = vtime
+        self.vtime = vtime
+
+    def _remove_vclock(self):
+        saved = self.__dict__.pop('_vclock_saved', None)
+        if saved is not None:
+            import cylc.flow.task_action_timer as _tat
+            import cylc.flow.xtriggers.wall_clock as _wc
+            _tat.time, _wc.time = saved
+
+    def retry_waiting(self):
+        """Pooled tasks with an unsatisfied retry xtrigger whose trigger time has not been reached yet (under the
+        clock in use): [[point, name], ...] sorted.  Empty with zero retry delays."""
+        import time as _t
+        now = getattr(self, 'vtime', _t.time)()
+        out = []
+        xm = self.schd.xtrigger_mgr
+        for itask in self.schd.pool.get_tasks():
+            for label, sat in itask.state.xtriggers.items():
+                if sat or not (label.startswith('_cylc_retry') or label.startswith('_cylc_submit_retry')):
+                    continue
+                try:
+                    tt = xm.xtriggers.functx_map[label].func_kwargs.get('trigger_time')
+                except Exception:
+                    tt = None
+                if tt is not None and not now > tt:
+                    out.append([int(itask.point), itask.tdef.name])
+                    break
+        return sorted(out)
 
     def _prep_fails(self, key):
         """additive (C02): does job-file preparation fail for submission [point, name, submit_num]?
@@ -333,6 +410,9 @@ class Run:
             return _add(itask, *a, **k)
 
         def remove(itask, reason=None, *a, **k):
+            # additive (C30 policy 'retrig_done'): cumulative record of the proxies that left the pool
+            run.__dict__.setdefault('all_removed', []).append(
+                [int(itask.point), itask.tdef.name, itask.state.status, None, reason])
             run.removed.append([
                 int(itask.point), itask.tdef.name, itask.state.status,
                 sorted(t for t, _m, done in itask.state.outputs if done), reason])
@@ -343,6 +423,8 @@ class Run:
             if res:
                 rl = pool.runahead_limit_point
                 run.stall_at = {'pool': run._snap_pool(), 'rl': None if rl is None else int(rl)}
+                if (run.case.get('policy') or {}).get('vclock'):
+                    run.stall_at['rwait'] = run.retry_waiting()      # additive (C03Q)
             return res
         pool.add_to_pool, pool.remove, pool.is_stalled = add_to_pool, remove, is_stalled
 
@@ -454,6 +536,8 @@ class Run:
             'adds': sorted(getattr(self, 'adds', [])),
             'removed': sorted(getattr(self, 'removed', []), key=lambda r: (r[0], r[1])),
             'stall_at': getattr(self, 'stall_at', None),
+            # additive (C03Q, only with policy vclock): tasks waiting for a retry delay that is not over yet
+            **({'rwait': self.retry_waiting()} if (self.case.get('policy') or {}).get('vclock') else {}),
             'prep': sorted(getattr(self, 'prepped', [])),
             # additive (C02): submissions whose job-file preparation failed in this op, in processing order
             'prepfail': list(getattr(self, 'prepfail', [])),
@@ -481,6 +565,12 @@ class Run:
         # additive (C29): the xtriggers of the pooled proxies (incl. the dynamic retry xtriggers) and whether satisfied
         obs['xtr'] = sorted([int(t.point), t.tdef.name, str(lb), bool(v)]
                             for t in schd.pool.get_tasks() for lb, v in t.state.xtriggers.items())
+        # additive (C29): the suicide prerequisites of the pooled proxies that have any: [p, name, [[atom..]..]]
+        obs['suip'] = sorted(
+            [int(t.point), t.tdef.name,
+             sorted((sorted([int(str(k.point)), k.task, k.output, bool(v)] for k, v in pre.items())
+                     for pre in t.state.suicide_prerequisites), key=lambda a: json.dumps(a, separators=(',', ':')))]
+            for t in schd.pool.get_tasks() if t.state.suicide_prerequisites)
         obs['flows_known'] = sorted(int(f) for f in schd.flow_mgr.flows)
         obs['ts'] = self._observe_ts() if self.stop_reason is None else None
         # additive (C27): pool snapshots immediately before / after the reload command of this op (and the queued
@@ -647,6 +737,9 @@ class Run:
             new_pf = getattr(self, 'prepfail', [])[n_pf:]
             if new_pf and self.case.get('ops') is None:
                 op['prepfail'] = [[f'{k[0]}/{k[1]}', k[2]] for k in new_pf]
+        elif kind == 'tick':
+            # additive (C03Q, policy vclock): the virtual clock of the retry timers moves on (past every pending delay)
+            self.clock_off = getattr(self, 'clock_off', 0.0) + float(op.get('dt', 4000))
         elif kind == 'subres':
             itask = schd.pool._get_task_by_id(op['task'])
             if itask is not None:
@@ -1127,6 +1220,14 @@ class Run:
                 self.want_reload = False
             if op is not None:
                 return op
+        if pol.get('p_stop_rerun') and getattr(self, 'reruns', None) and self.restarts_left > 0 \
+                and schd.stop_mode is None:
+            # additive (C19R, off unless the policy sets p_stop_rerun; no random draw otherwise): stop the scheduler
+            # while an instance re-run in a later flow (see p_set_finished) is running / failed / succeeded there
+            if any((int(t.point), t.tdef.name) in self.reruns and t.state.status in ('running', 'failed', 'succeeded')
+                   for t in schd.pool.get_tasks()) and rng.random() < pol['p_stop_rerun']:
+                return {'op': 'cmd', 'name': 'stop',
+                        'args': {'mode': rng.choice(['REQUEST(NOW)', 'REQUEST(NOW-NOW)'])}}
         if pol.get('cmds') and rng.random() < pol.get('p_cmd', 0.0):
             op = self.random_cmd(rng, pol)
             if op is not None:
@@ -1183,6 +1284,10 @@ class Run:
                 key = rng.choice(fin)
                 return {'op': 'msg', 'task': f'{key[0]}/{key[1]}', 'msg': self.jobs[key]['plan'][-1][1],
                         'sn': key[2]}
+        if pol.get('vclock') and pol.get('p_tick') and self.retry_waiting() and rng.random() < pol['p_tick']:
+            # additive (C03Q, off unless the policy sets vclock + p_tick; no random draw otherwise): some task waits
+            # for a retry delay: now and then the clock moves past it
+            return {'op': 'tick', 'dt': 4000}
         plan = pol.get('crash_plan')
         if plan:
             # additive (C20, off unless the policy has a crash_plan; no random draw): crash_plan = [[n, k, j], ...] in
@@ -1374,6 +1479,17 @@ class Run:
             src = pooled if pooled and rng.random() < 0.5 else insts
             group = set(rng.sample(src, min(len(src), rng.choice([1, 1, 2, 2, 3]))))
             inst_set = set(insts)
+            if pol.get('p_trig_held') and rng.random() < pol['p_trig_held']:
+                # additive (C28, off unless the policy sets p_trig_held; no random draw otherwise): the group is built
+                # around a member that is on hold while it is NOT in the pool (a future or finished instance held by
+                # `cylc hold`) together with one of its graph parents, so that it is a non-start member
+                held_out = sorted((int(pt), n) for n, pt in self.schd.pool.tasks_to_hold
+                                  if (int(pt), n) not in set(pooled) and (int(pt), n) in inst_set)
+                if held_out:
+                    hp, hn = rng.choice(held_out)
+                    hd = g['tasks'][hn]['inst'][str(hp)]
+                    parents = sorted({(a[0], a[1]) for pre in hd['pre'] for a in pre['atoms']} & inst_set)
+                    group = {(hp, hn)} | ({rng.choice(parents)} if parents else set())
             for _ in range(rng.choice([0, 1, 1, 2, 3])):
                 p, n = rng.choice(sorted(group))
                 d = g['tasks'].get(n, {}).get('inst', {}).get(str(p))
@@ -1397,6 +1513,70 @@ class Run:
             wait = bool(flow not in (['new'], ['none']) and rng.random() < pol.get('p_wait', 0.15))
             return {'op': 'cmd', 'name': 'force_trigger_tasks',
                     'args': {'tasks': sorted(f'{p}/{n}' for p, n in group), 'flow': flow, 'flow_wait': wait}}
+        if kind == 'hold_member':
+            # additive (C28): `cylc hold` of one or two instances that are NOT in the pool (not yet spawned, or
+            # finished) and have a graph parent -- candidates for held non-start members of a later group trigger
+            pooled = {(int(t.point), t.tdef.name) for t in self.schd.pool.get_tasks()}
+            inst_set = set(insts)
+            cands = sorted(
+                (p, n) for p, n in insts if (p, n) not in pooled and any(
+                    (a[0], a[1]) in inst_set for pre in g['tasks'][n]['inst'][str(p)]['pre'] for a in pre['atoms']))
+            if not cands:
+                return None
+            picks = rng.sample(cands, min(len(cands), rng.choice([1, 1, 2])))
+            return {'op': 'cmd', 'name': 'hold', 'args': {'tasks': sorted(f'{p}/{n}' for p, n in picks)}}
+        if kind == 'retrig_done':
+            # additive (C30): re-run a FINISHED task instance (a job of it was launched, it is no longer in the pool)
+            # that has graph children, in a new flow (now and then under an existing / the next flow number):
+            # its children are spawned again in that flow while their history of the earlier flow is in the DB
+            pooled = {(int(t.point), t.tdef.name) for t in self.schd.pool.get_tasks()}
+            ran = {(p, n) for p, n, _st, _outs, _reason in getattr(self, 'all_removed', [])}
+            done = sorted(k for k in ran - pooled
+                          if any(g['tasks'][k[1]]['inst'].get(str(k[0]), {}).get('children', {}).values()))
+            if not done:
+                return None
+            # prefer a parent one of whose graph children has run as well (the child then has history in the old flow)
+            both = [k for k in done if any((c[1], c[0]) in ran
+                                           for cs in g['tasks'][k[1]]['inst'][str(k[0])]['children'].values() for c in cs)]
+            if both and rng.random() < 0.8:
+                done = both
+            if not self.schd.is_paused and rng.random() < 0.4:
+                # pause first, so that the children spawned by the re-run wait (they are not released from the queue)
+                return {'op': 'cmd', 'name': 'pause', 'args': {}}
+            p, n = rng.choice(done)
+            if rng.random() < 0.8:
+                flow = ['new']
+            else:
+                flow = [str(rng.randint(1, int(self.schd.flow_mgr.counter) + 1))]
+            return {'op': 'cmd', 'name': 'force_trigger_tasks',
+                    'args': {'tasks': [f'{p}/{n}'], 'flow': flow, 'flow_wait': False}}
+        if kind == 'remove_parent':
+            # additive (C30): `cylc remove` of a task that has naturally satisfied a prerequisite of a pooled task
+            # that has not started yet (so that the child has to stand down), mostly without --flow
+            cands, pref = set(), set()
+            ran = {(p, n) for p, n, _st, _outs, _reason in getattr(self, 'all_removed', [])}
+            for t in self.schd.pool.get_tasks():
+                if t.state.status != 'waiting':
+                    continue
+                for pre in t.state.prerequisites:
+                    for k, v in pre.items():
+                        if v in ('satisfied naturally', 'satisfied from database'):
+                            cands.add((int(str(k.point)), k.task))
+                            if (int(t.point), t.tdef.name) in ran:
+                                pref.add((int(str(k.point)), k.task))     # the child has been in the pool before
+            inst_set = set(insts)
+            cands = sorted(c for c in cands if c in inst_set)
+            pref = sorted(c for c in pref if c in inst_set)
+            if not cands:
+                return None
+            p, n = rng.choice(pref if pref and rng.random() < 0.8 else cands)
+            r = rng.random()
+            if r < 0.75:
+                flow = []
+            else:
+                top = int(self.schd.flow_mgr.counter)
+                flow = sorted({str(rng.randint(1, max(1, top))) for _ in range(rng.choice([1, 2]))})
+            return {'op': 'cmd', 'name': 'remove_tasks', 'args': {'tasks': [f'{p}/{n}'], 'flow': flow}}
         if kind == 'remove':
             # additive (C30): `cylc remove` of 1-3 task instances (pooled in any state, finished, or never
             # spawned), sometimes grown along graph edges (so that a matched task has a matched child), without
@@ -1431,6 +1611,24 @@ class Run:
             # additive (C29 / C08S): `cylc set` of outputs / prerequisites on ONE task instance (pooled or not,
             # any state) with --flow=default / new / none / N.. and --wait.  One id per command (the code iterates
             # a set of ids), at most one custom output per command (custom outputs tie in the sort key).
+            if pol.get('p_set_finished') and rng.random() < pol['p_set_finished']:
+                # additive (C19R, off unless the policy sets p_set_finished; no random draw otherwise): re-run an
+                # instance that already ran and left the pool, in ANOTHER flow (--flow=new / a number above the
+                # ones in use): `cylc set --pre=all`, so that the instance has database rows under several flow
+                # numbers and is active in the later flow
+                pooled_now = {(int(t.point), t.tdef.name) for t in self.schd.pool.get_tasks()}
+                # (only instances whose earlier jobs have delivered everything: no message of an old job is left
+                # that the re-run proxy - it starts from the submit number of its history - could take for its own)
+                busy = {(k[0], k[1]) for k, j in self.jobs.items() if j['next'] < len(j['plan'])}
+                gone = sorted({(k[0], k[1]) for k in self.jobs} - pooled_now - busy)
+                if gone:
+                    p, n = rng.choice(gone)
+                    self.__dict__.setdefault('reruns', set()).add((p, n))
+                    flow = (['new'] if rng.random() < 0.6 else
+                            [str(int(self.schd.flow_mgr.counter) + rng.choice([1, 2]))])
+                    return {'op': 'cmd', 'name': 'set_prereqs_and_outputs',
+                            'args': {'tasks': [f'{p}/{n}'], 'flow': flow, 'flow_wait': False,
+                                     'prerequisites': ['all']}}
             pooled = [(int(t.point), t.tdef.name) for t in self.schd.pool.get_tasks()]
             # (C26S / C11R, additive policy keys with the old values as defaults, same random draws:
             # p_set_pooled = share of commands aimed at a pooled instance, p_wait = share of --wait)
@@ -1442,6 +1640,14 @@ class Run:
                                if any(not v for v in t.state.xtriggers.values()))
                 if xwait and rng.random() < 0.4:
                     p, n = rng.choice(xwait)
+            sui_all = False
+            if pol.get('suic') and kind == 'set_pre':
+                # additive (C29, option 'suic'): aim at an instance that has suicide prerequisites, mostly with --pre=all
+                wsui = sorted((int(q), m) for m, t in g['tasks'].items() for q, d in t.get('inst', {}).items()
+                              if d.get('sui') and (int(q), m) in set(map(tuple, insts)))
+                if wsui and rng.random() < 0.4:
+                    p, n = rng.choice(wsui)
+                    sui_all = rng.random() < 0.7
             active = set()
             for t in self.schd.pool.get_tasks():
                 active |= set(t.flow_nums)
@@ -1487,6 +1693,8 @@ class Run:
                     # something the task does not depend on
                     q, m = rng.choice(insts)
                     pres.append(f'{q}/{m}:' + rng.choice(['succeeded', 'started', 'failed', 'nope']))
+                if sui_all:
+                    pres = ['all']
                 if pol.get('xtrig'):
                     # additive (C29, option 'xtrig'): xtrigger prerequisites - the xtriggers the target carries (the
                     # dynamic retry xtriggers), `xtrigger/all`, a retry label the target does not carry, an unknown one;
@@ -1509,6 +1717,46 @@ class Run:
                             pres = pres + xpre
                 args['prerequisites'] = pres
             return {'op': 'cmd', 'name': 'set_prereqs_and_outputs', 'args': args}
+        if kind == 'rl_remove':
+            # additive (C27): `cylc remove` (no --flow) of ONE instance that is in the graph: a pooled task that has not
+            # started (waiting: it respawns later with its prerequisites on already finished parents unsatisfied), or a
+            # finished parent of such a task (the child stands down).  Targets with a job are left to the C30 kinds.
+            wait = [t for t in self.schd.pool.get_tasks() if t.state.status == 'waiting' and t.tdef.name in g['tasks']]
+            inst_set = set(insts)
+            parents = set()
+            for t in wait:
+                for pre in t.state.prerequisites:
+                    for k, v in pre.items():
+                        if v:
+                            parents.add((int(str(k.point)), k.task))
+            pooled_keys = {(int(t.point), t.tdef.name) for t in self.schd.pool.get_tasks()}
+            parents = sorted(c for c in parents if c in inst_set and c not in pooled_keys)
+            # prefer a waiting task that already has a satisfied prerequisite (its parent's output is recorded)
+            part = sorted((int(t.point), t.tdef.name) for t in wait
+                          if any(v for pre in t.state.prerequisites for _k, v in pre.items()))
+            allw = sorted((int(t.point), t.tdef.name) for t in wait)
+            r = rng.random()
+            cands = part if (part and r < 0.5) else parents if (parents and r < 0.75) else allw
+            if not cands:
+                return None
+            p, n = rng.choice(cands)
+            return {'op': 'cmd', 'name': 'remove_tasks', 'args': {'tasks': [f'{p}/{n}'], 'flow': []}}
+        if kind == 'rl_set_custom':
+            # additive (C27): `cylc set --out=<one custom output>` (default flow, no --wait) on a pooled task of the graph
+            # that defines custom outputs and has not completed that one yet
+            cands = []
+            for t in self.schd.pool.get_tasks():
+                if t.tdef.name not in g['tasks'] or not t.flow_nums:
+                    continue
+                std = ('submitted', 'started', 'succeeded', 'failed', 'submit-failed', 'expired')
+                for trig, msg, done in t.state.outputs:
+                    if trig not in std and not done and any(o[0] == trig for o in g['tasks'][t.tdef.name]['outputs']):
+                        cands.append((int(t.point), t.tdef.name, trig))
+            if not cands:
+                return None
+            p, n, trig = rng.choice(sorted(cands))
+            return {'op': 'cmd', 'name': 'set_prereqs_and_outputs',
+                    'args': {'tasks': [f'{p}/{n}'], 'flow': [], 'flow_wait': False, 'outputs': [trig]}}
         if kind == 'reload':
             # additive (C27): reload with one of the case's definitions (unchanged / extended / shrunk / broken).
             # As the real command first flushes preparing tasks through job submission, the submit results of
@@ -1578,6 +1826,13 @@ class Run:
             plan.append(('msg', 'failed'))
             return self._vary_plan(rng, pol, plan)
         plan.append(('msg', 'failed' if rng.random() < oc.get('p_fail', 0.0) else 'succeeded'))
+        if pol.get('p_custom_late'):
+            # additive (C11R, off unless the policy sets p_custom_late; no random draw otherwise): out-of-order
+            # arrival - each custom output message of the job is delivered AFTER its final status message with
+            # that probability (a `cylc message` backgrounded by the job script, network re-ordering)
+            late = [e for e in plan[2:-1] if rng.random() < pol['p_custom_late']]
+            if late:
+                plan = [e for e in plan[:-1] if e not in late] + [plan[-1]] + late
         return self._vary_plan(rng, pol, plan)
 
     FAIL_FORMS = ('failed', 'failed/ERR', 'failed/EXIT', 'failed/SIGTERM', 'failed/XCPU', 'aborted/by the job script')
@@ -1652,7 +1907,9 @@ class Run:
                 if given is None:
                     # stop early when nothing can happen any more
                     busy = any(j['next'] < len(j['plan']) for j in self.jobs.values()) or (
-                        bool(pol.get('p_poll')) and bool(self.poll_reqs))
+                        bool(pol.get('p_poll')) and bool(self.poll_reqs)) or (
+                        # additive (C03Q): a pending retry delay that a later 'tick' will end
+                        bool(pol.get('vclock')) and bool(pol.get('p_tick')) and bool(self.retry_waiting()))
                     if op['op'] == 'loop' and not ob['launch'] and not busy and ob == obs[-2]:
                         idle_loops += 1
                         if idle_loops >= 2:
@@ -1673,6 +1930,7 @@ class Run:
             await self.stop_scheduler()
         except Exception:
             pass
+        self._remove_vclock()       # additive (C03Q): no-op unless the virtual retry clock was installed
         shutil.rmtree(Path(_SCRATCH) / 'cylc-run' / self.id, ignore_errors=True)
 
 
@@ -1686,6 +1944,21 @@ def _longest_interval(cfg):
         return int(str(cfg.interval_of_longest_sequence).lstrip('P'))
     except (TypeError, ValueError):
         return None
+
+
+def _pre_spec(tdef, pt):
+    """additive (C01 judge): atom lists of the non-suicide dependencies of the recurrences `pt` is valid on."""
+    out = {}
+    for seq, deps in tdef.dependencies.items():
+        if not seq.is_valid(pt):
+            continue
+        for dep in deps:
+            if dep.suicide:
+                continue
+            cpre = dep.get_prerequisite(pt, tdef)
+            atoms = sorted([int(str(k.point)), k.task, k.output] for k in cpre.keys())
+            out[json.dumps(atoms)] = atoms
+    return [out[k] for k in sorted(out)]
 
 
 def extract_graph(schd, case, flow_text=None):
@@ -1753,6 +2026,11 @@ def extract_graph(schd, case, flow_text=None):
                 # additive (C01 judge): whether the instance is parentless (TaskDef.is_parentless); the model
                 # does not read it
                 'parentless': bool(tdef.is_parentless(pt, cfg.start_point)),
+                # additive (C01 judge): the prerequisites the instance must have according to the recurrences it is
+                # VALID on (Sequence.is_valid: on the sequence and within its own bounds) - one atom list
+                # [point, task, message] per dependency of those recurrences, computed here from TaskDef.dependencies,
+                # not read from the TaskProxy; the model does not read it
+                'pre_spec': _pre_spec(tdef, pt),
                 # additive (C28, read by the group-trigger model): what `cylc trigger` reads off the TaskDef --
                 # the parents named by the (non-suicide) triggers, the prerequisite atoms of TaskDef.get_prereqs,
                 # and is_parentless with the initial point as cutoff
